@@ -143,17 +143,24 @@ def sv_completeness(ctx) -> None:
     itw = Interp(prog, None, inline=lambda c, r, d: False)
     pw = [q for q in itw.run(w) if q.status == "return"][0]
     rows = cols = cloned = False
+    idx_terms: list = []
     for e in pw.events:
         if e.kind == "setitem" and is_const(e.value, 0):
             idx = strip_typed(e.target[1])
             if idx[0] == "tuple" and len(idx[1]) == 2:
-                if idx[1][1][0] == "slice" and "indices" in show(idx[1][0]):
+                if idx[1][1][0] == "slice" and idx[1][0][0] != "slice":
                     rows = True
-                if idx[1][0][0] == "slice" and "indices" in show(idx[1][1]):
+                    idx_terms.append(idx[1][0])
+                if idx[1][0][0] == "slice" and idx[1][1][0] != "slice":
                     cols = True
+                    idx_terms.append(idx[1][1])
             cloned = cloned or (strip_typed(e.target[0])[0] == "mcall" and strip_typed(e.target[0])[2] == "clone")
-    ind = p.frames[0].env.get("indices")
-    okind = ind is not None and "where(" in show(ind) and canon(mask) in [canon(t) for t in walk(ind)]
+    # the index set used by the wrapper is a closure variable of init_dark_qubits: torch.where(mask)[0]
+    okind = False
+    for name, val in (p.frames[0].env.items() if p.frames else []):
+        if "where(" in show(val) and canon(mask) in [canon(t) for t in walk(val)]:
+            # the wrapper must index with exactly this closure variable
+            okind = bool(idx_terms) and all(show(strip_typed(t)) == name for t in idx_terms)
     installed = any(e.kind == "setattr" and e.name == "interaction_matrix" and strip_typed(e.value)[0] == "localfunc" for e in p.events)
     ok = rows and cols and cloned and okind and installed
     ctx.ob("DARK-sv", "interactions removed", w.loc(), ok,
@@ -192,7 +199,7 @@ def physdim(ctx) -> None:
                     phys = e.pos[1:-1]
                     bad = [x for x in phys if strip_typed(x)[0] == "const"]
                     ok = not bad and all(_physdim_provenance(x, f) for x in phys)
-                    ctx.ob("PHYSDIM", f"{f.name}|{util.text(e.node, 60)}", e.loc(), ok,
+                    ctx.ob("PHYSDIM", f"{f.name}|{util.akey(e.node, e.func, 60)}", e.loc(), ok,
                            "the dark factor takes its physical dimension from the neighbouring factors / dim" if ok else
                            f"the dark-atom factor is built with the literal physical dimension "
                            f"{[show(x) for x in phys]}: with leakage (3 levels) the padded state mixes 2- and 3-level "
